@@ -318,7 +318,7 @@ int main(int argc, char** argv) {
         };
         auto long_trace = [&](int kind, Result& R) {
             std::string rep = "long=" + std::to_string(kind); set_note(rep);
-            BlockParameters bp; bp.storage_parameters.max_block_items = kind == 0 ? 100000 : 3; std::vector<BlockParameters> bps = {bp}; FilePreamble fp(bps); std::vector<std::string> outs; model::Exporter M({model::from(bp)});
+            BlockParameters bp; bp.storage_parameters.max_block_items = (kind == 0 || kind == 4) ? 100000 : 3; std::vector<BlockParameters> bps = {bp}; FilePreamble fp(bps); std::vector<std::string> outs; model::Exporter M({model::from(bp)});
             int N = kind == 0 ? 70000 : kind == 1 ? 600 : 0;   // kind 0: one block whose tables outgrow 16-bit indices (70000 distinct addresses / names / signatures) and an address event counted 70000 times
             if (kind == 3) { // 300 block-parameter sets (indices beyond 8 bits); blocks written under sets 0, 255, 256, 299
                 std::vector<BlockParameters> bs; for (int i = 0; i < 300; i++) { BlockParameters b; b.storage_parameters.max_block_items = 1000 + i; b.storage_parameters.ticks_per_second = 1000 + i; bs.push_back(b); }
@@ -351,6 +351,13 @@ int main(int argc, char** argv) {
               for (int i = 0; i < N; i++) { GenericQueryResponse g = P.qr[i % 5]; g.client_ip = std::string("\x0a", 1) + std::string(1, (char)(i >> 16)) + std::string(1, (char)(i >> 8)) + std::string(1, (char)i); g.query_name = std::string("\5label", 6) + std::to_string(i * 7919); g.transaction_id = i & 0xffff; g.ts = Timestamp(1600000000 + i / 7, ((uint64_t)i * 142857) % 1000000);
                   if (kind == 0) { g.server_port = i & 0xffff; g.query_udp_size = (i >> 16) + 512; if (g.response_answers) (*g.response_answers)[0].ttl = (uint32_t)i; }
                   e.buffer_qr(g); M.buffer_qr(g, nullptr); if (kind == 0) { e.buffer_aec(P.aec[0]); M.buffer_aec(P.aec[0], nullptr); } if (i % 11 == 0) { e.buffer_aec(P.aec[i % 3]); M.buffer_aec(P.aec[i % 3], nullptr); } if (i % 13 == 0) { GenericMalformedMessage m = P.mm[0]; m.client_port = i & 0xffff; e.buffer_mm(m); M.buffer_mm(m, nullptr); } }
+              if (kind == 4) { // list lengths and string lengths around 2^8 and 2^16: RR lists of 255/256/300/70000 records, names / rdata / payloads of 255..70000 bytes
+                  for (size_t n : {(size_t)255, (size_t)256, (size_t)300, (size_t)70000}) { GenericQueryResponse g = P.qr[3]; g.client_port = (uint16_t)n; std::vector<GenericResourceRecord> l, ql;
+                      for (size_t i = 0; i < n; i++) { l.push_back(rr(std::string("\3rrn", 4) + std::to_string(i % 7), (uint16_t)(i % 5), 1, (uint32_t)i, i % 3 ? boost::optional<std::string>(std::string("rd") + std::to_string(i % 11)) : boost::none)); if (i < 300) ql.push_back(rr(std::string("\2qn", 3) + std::to_string(i), (uint16_t)i, 1)); }
+                      g.response_answers = l; g.query_questions = ql; if (n == 300) g.response_additional = l; e.buffer_qr(g); M.buffer_qr(g, nullptr); }
+                  for (size_t n : {(size_t)255, (size_t)256, (size_t)65535, (size_t)65536, (size_t)70000}) { GenericQueryResponse g = P.qr[1]; g.client_port = (uint16_t)(n & 0xffff); std::string big(n, 0); for (size_t i = 0; i < n; i++) big[i] = (char)(i * 131 + n);
+                      g.query_name = big; g.query_opt_rdata = big + "o"; g.asn = std::string(n, 'A'); g.response_answers = std::vector<GenericResourceRecord>{rr(big + "n", 1, 1, 1u, big + "r")}; e.buffer_qr(g); M.buffer_qr(g, nullptr);
+                      GenericMalformedMessage m = P.mm[0]; m.mm_payload = big + "p"; m.client_port = (uint16_t)(n & 0xffff); e.buffer_mm(m); M.buffer_mm(m, nullptr); } }
               e.write_block(); M.write_block(); }
             std::string expect = "P{" + M.outs[0].preamble + "}"; for (auto& b : M.outs[0].blocks) expect += "|B{" + b.dump() + "}"; expect += "|eof";
             R.count("traces"); R.count("nontrivial");
@@ -362,11 +369,11 @@ int main(int argc, char** argv) {
         if (!a.replay.empty()) { std::string s = slurp(a.replay); Case c; int lk; Pool rp(1, 120);
             rp.run(1, [&](uint64_t, Result& R) { if (sscanf(s.c_str(), "long=%d", &lk) == 1) long_trace(lk, R); else if (sscanf(s.c_str(), "f1=%d;v1=%d;f2=%d;v2=%d;base=%d", &c.f1, &c.v1, &c.f2, &c.v2, &c.base) == 5) run_case(c, R); },
                    [&](uint64_t, const std::string& d, Result& R) { R.violation("values|" + crash_key(d), d.substr(0, 1500), s); }, total); return done(total.viol.empty() ? 0 : 1); }
-        uint64_t chunk = 16, ntasks = (cases.size() + chunk - 1) / chunk + 4;
+        uint64_t chunk = 16, ntasks = (cases.size() + chunk - 1) / chunk + 5;
         Pool pool(a.jobs, 300);
         pool.run(ntasks, [&](uint64_t ti, Result& R) {
             if (a.expired()) { R.deadline_hit = true; return; }
-            if (ti >= ntasks - 4) { long_trace((int)(ti - (ntasks - 4)), R); return; }
+            if (ti >= ntasks - 5) { long_trace((int)(ti - (ntasks - 5)), R); return; }
             for (uint64_t i = ti * chunk; i < std::min<uint64_t>(cases.size(), (ti + 1) * chunk); i++) run_case(cases[i], R);
             if (ti % 61 == 0) R.sample(std::string("field ") + F[cases[ti * chunk].f1].name + " variant " + std::to_string(cases[ti * chunk].v1) + " base " + std::to_string(cases[ti * chunk].base));
         }, [&](uint64_t, const std::string& d, Result& R) { R.violation("values|" + crash_key(d), d.substr(0, 1500), pool.last_note); }, total);
